@@ -16,6 +16,26 @@ def kernelOps (fs : FS) (k : Kern) : List Op → FS × Kern × List NRec
     let (fs2, k2, r2) := kernelOps fs1 k1 rest
     (fs2, k2, r1 ++ r2)
 
+/-- where a path is by the time the emitter gets to an unmatched MOVED_FROM (half a second after the record was read):
+    every matched rename of a directory above it that was read later has re-keyed the book-keeping -/
+def rewriteBy (later : List Grouped) (p : P) : P :=
+  later.foldl (fun p g => match g with
+    | .two f t => if f.isDir && isUnder f.src p then t.src ++ p.drop f.src.length else p
+    | .one _ => p) p
+
+/-- the directories that left the tree, under the paths their watches are known by when the emitter forgets them:
+    `remove_tree_watches(src_path, cookie)` looks the departed directory's own watch up (repaired defect D21 - the path
+    of the record itself is stale once an ancestor has been renamed in the meantime) -/
+def movedOutNow : List Grouped → List P
+  | [] => []
+  | .one e :: rest =>
+    if e.flag == .movedFrom && e.isDir then rewriteBy rest e.src :: movedOutNow rest else movedOutNow rest
+  | .two _ _ :: rest => movedOutNow rest
+
+/-- a burst of one operation is the drained regime: nothing is read between the record and the emitter's turn, the
+    record's own path is current -/
+def departed (n : Nat) (gs : List Grouped) : List P := if n ≤ 1 then movedOut gs else movedOutNow gs
+
 /-- a whole burst, read in one batch after its last operation -/
 def Sys.burst (s : Sys) (ops : List Op) : Sys × List PEv :=
   let (fs1, k1, recs) := kernelOps s.fs s.k ops
@@ -26,7 +46,7 @@ def Sys.burst (s : Sys) (ops : List Op) : Sys × List PEv :=
     | some (k2, lib2, levs) =>
       let gs := gsOf levs
       let (evs, stop) := emitAll fs1 lib2.recursive s.full gs
-      match forgetAll fs1 k2 lib2 (if lib2.recursive then movedOut gs else []) with
+      match forgetAll fs1 k2 lib2 (if lib2.recursive then departed ops.length gs else []) with
       | none => ({ s with fs := fs1, k := k2, lib := lib2, crashed := true }, evs)
       | some (k3, lib3) => ({ s with fs := fs1, k := k3, lib := lib3, stopped := stop }, evs)
 
